@@ -28,12 +28,14 @@ var (
 
 var vpBackendChunk []byte
 var vpBackendHangsUp bool // after its chunk the host closes the connection (otherwise it stays quiet)
+var vpBackendReads [][]byte // when set: what the host's successive reads deliver (instead of one chunk)
 var vpStepTunnel *Tunnel
 var vpSeenTarget, vpSeenAddr string
 
 func vpResetC01() {
 	vpBackendChunk = nil
 	vpBackendHangsUp = false
+	vpBackendReads = nil
 	vpStepTunnel, vpSeenTarget, vpSeenAddr = nil, "", ""
 	vpDialLog = nil
 	vpDialConns = nil
@@ -54,6 +56,9 @@ func vpDial(network, address string, timeout time.Duration) (net.Conn, error) {
 	c := &vpConn{block: !vpBackendHangsUp}
 	if vpBackendChunk != nil {
 		c.reads = [][]byte{vpBackendChunk} // the host sends one chunk and then stays quiet
+	}
+	if vpBackendReads != nil {
+		c.reads = append([][]byte{}, vpBackendReads...)
 	}
 	vpDialConns = append(vpDialConns, c)
 	return c, nil
